@@ -16,7 +16,8 @@ SPEC = dict(
           "bridged cysteine is non-titratable and fixed at 99.99; ions get their configured charge; the summary lists a group as "
           "often as the group list does when write_out_order is duplicate-free and contains its residue type (both decided). "
           "The parser and census models are compared with the real code; an independent residue-level specification of the sites "
-          "is evaluated against the real parser, every conformation's groups and the parsed summary of the written .pka.",
+          "is evaluated against the real parser, every conformation's groups and the parsed summary of the written .pka. "
+          "Group set-up is modelled too (Model/Setup.lean): setup_atoms of every group class (centre atoms, interaction atoms for acids / for bases), set_center, the ring search of the histidine set-up, the covalent coupling search find_covalently_coupled_groups, and the ligand classifier is_ligand_group_by_groups; on every distinct conformation this check runs, centres (bit patterns), both interaction-atom lists, the coupling lists and the class of every hetero atom are compared with the real objects. The scoring model is compared as well. Theorems: ligand_classes_known (every class the ligand classifier can name is a class of propka.group with a residue type of its own and is known to the set-up model - decided on the regenerated class list), ligandClass_mem (whatever the atoms, bonds and SYBYL types, the classifier names one of those classes or none), mem_couple / couple_sym / covalentCoupling_sym (couple_covalently adds exactly the two mutual entries; the coupling lists are symmetric).",
     note="Ligand typing (SYBYL perception) is not modelled: for hetero groups the check verifies, on the real objects, that whatever "
          "group the classifier returned carries the model pKa/charge configured for its type. The census model is trace-driven for "
          "the bond-derived inputs (bonded-oxygen count, disulfide flag).",
@@ -237,7 +238,7 @@ def gen_inputs(ctx):
     return out
 
 
-def run(ctx):
+def _run(ctx):
     inputs = gen_inputs(ctx)
     from propka.parameters import Parameters
     from propka.input import read_parameter_file
@@ -383,6 +384,12 @@ def coupling_family(ctx):
 
 PROTEIN_CLASSES = {"NtermGroup", "CtermGroup", "BBNGroup", "BBCGroup", "IonGroup", "COOGroup", "HISGroup", "CYSGroup", "TYRGroup", "LYSGroup",
                    "ARGGroup", "ROHGroup", "AMDGroup", "TRPGroup", "SERGroup"}
+
+
+def run(ctx):
+    from .. import scoring_common
+    with scoring_common.tie(ctx, "C01's structures"):
+        _run(ctx)
 
 
 def replay(ctx, rep):
